@@ -1,0 +1,14 @@
+//go:build verif
+
+package parser
+
+// VerifAdvanceHook, when non-nil, is called on every parser cursor advance
+// with the new cursor position, the length of the token stream and the
+// current recursion-depth counter. Verification builds only (-tags verif).
+var VerifAdvanceHook func(pos, ntokens, depth int)
+
+func verifOnAdvance(p *Parser) {
+	if h := VerifAdvanceHook; h != nil {
+		h(p.currentPos, len(p.tokens), p.depth)
+	}
+}
